@@ -17,6 +17,23 @@ var c05ctxs = []string{"<%= E %>", "<% E %>", "<% let q = E %>", "<% let q = 1 %
 	"<% let g2 = fn(a) { return E } %><%= g2(1) %>", "<%= blk() { %><%= E %><% } %>", `<%= htmlEscape("x") { %><%= E %><% } %>`, `<% contentFor("c") { %><%= E %><% } %>x<%= contentOf("c") %>`, `<%= contentOf("nope") { %><%= E %><% } %>`,
 	"<%= blkctx({w: E}) { %>b<% } %>", `<%= partial("p.html", {who: E}) %>`, "<% return E %>", "text<%= E %>more", "<%= xs %><% E %>tail", `<%= for (x) in xs { %>a<% E %>b<% } %>`}
 
+// error types whose zero value is a perfectly good (non-nil) error
+type c05errStruct struct{}
+
+func (c05errStruct) Error() string { return "not found" }
+
+type c05errCode int
+
+func (c c05errCode) Error() string { return fmt.Sprintf("code %d", int(c)) }
+
+type c05errText string
+
+func (c c05errText) Error() string { return "text:" + string(c) }
+
+type c05errArr [2]int
+
+func (c c05errArr) Error() string { return "arr" }
+
 func init() {
 	register("C05", func(e *Env) {
 		renderPrelude()
@@ -143,6 +160,38 @@ func init() {
 					e.Violate("c05-swallowed", fmt.Sprintf("failing helper was invoked but Render succeeded with %q for %q", o.Out, t), rp)
 				case o.Class == "ERR" && o.Sentinel != 1:
 					e.Violate("c05-not-wrapped", fmt.Sprintf("failing helper was invoked, Render failed, but errors.Is(err, E1) is false for %q: %s", t, o.Msg), rp)
+				case o.Class == "ERR" && o.Out != "":
+					e.Violate("c05-partial-output", fmt.Sprintf("Render returned an error and output %q for %q", o.Out, t), rp)
+				case o.Class == "PANIC":
+					e.Violate("eval-panic@"+siteOf(o.Msg), fmt.Sprintf("Render panicked on %q: %s", t, o.Msg), rp)
+				}
+			}
+		}
+		// failing helpers whose error VALUE is the zero value of its type (a stateless sentinel struct, an
+		// errno-like int that is 0, an empty named string): a non-nil error all the same
+		{
+			inv := 0
+			extra := map[string]interface{}{
+				"failZ": func() (string, error) { inv++; return "z", c05errStruct{} },
+				"failC": func(s string) (int, error) { inv++; return 1, c05errCode(0) },
+				"failE": func() error { inv++; return c05errText("") },
+				"failA": func() (string, error) { inv++; return "a", c05errArr{} },
+			}
+			for _, t := range []string{"<p><%= failZ() %></p>", "<%= if (failZ()) { %>y<% } else { %>n<% } %>", "<%= failC(\"k\") + 1 %>", "<% let q = failC(\"k\") %>ok", "a<% failE() %>b", "<%= for (x) in [1, 2] { %><%= failA() %><% } %>",
+				"<%= failZ() == nil %>", "<%= [failC(\"x\")] %>", "<%= blk() { %><%= failA() %><% } %>"} {
+				inv = 0
+				c := RCase{Tmpl: t, Binds: stdBinds(), Parts: stdParts}
+				o := runRenderExtra(c, extra)
+				e.rep.Evaluations++
+				e.Count("zero-valued-errors")
+				if inv == 0 {
+					continue
+				}
+				e.Distinct("inv/" + t)
+				rp := map[string]interface{}{"tmpl": t, "observed": o}
+				switch {
+				case o.Class == "OK":
+					e.Violate("c05-swallowed", fmt.Sprintf("a helper returning a non-nil error (whose value is its type's zero value) was invoked but Render succeeded with %q for %q", o.Out, t), rp)
 				case o.Class == "ERR" && o.Out != "":
 					e.Violate("c05-partial-output", fmt.Sprintf("Render returned an error and output %q for %q", o.Out, t), rp)
 				case o.Class == "PANIC":
